@@ -226,6 +226,14 @@ class Interp:
 
     # -------------------------------------------------------------- arithmetic
     def binop(self, op, a, b, st, node):
+        if isinstance(a, OptReal) or isinstance(b, OptReal):
+            # arithmetic on `float | None`: None would be a TypeError -> obligation
+            for x in (a, b):
+                if isinstance(x, OptReal):
+                    self.oblige(st, f"no_type_error_none_operand@{node.lineno}", z3.Not(x.none))
+                    st.assume(z3.Not(x.none))
+            a = a.val if isinstance(a, OptReal) else a
+            b = b.val if isinstance(b, OptReal) else b
         if isinstance(op, ast.Add) and isinstance(a, (list, tuple)) and isinstance(b, type(a)):
             return a + b
         if isinstance(op, ast.Mult) and isinstance(a, list) and isinstance(b, int):
@@ -1723,6 +1731,13 @@ class OptReal:
 
     def __init__(self, none, val):
         self.none, self.val = none, val
+
+    def pyvc_eq(self, other, st, ex):
+        if other is None:
+            return self.none
+        if isinstance(other, OptReal):
+            return z3.Or(z3.And(self.none, other.none), z3.And(z3.Not(self.none), z3.Not(other.none), self.val == other.val))
+        return z3.And(z3.Not(self.none), self.val == to_real(other))
 
     def compare(self, op, other, st, ex):
         raise Unsupported("ordering on optional real")
